@@ -243,8 +243,10 @@ def rule_overflow(ctx, f):
                 ctx.ob("F-OVERFLOW", "%s-in:%s" % (c.callee.rsplit("::", 1)[-1], b.root), False,
                        "lossy channel mode / non-waiting send on the message channel: messages can be dropped", c.where)
     ctx.floor("F-OVERFLOW", "async_broadcast API calls seen in zbus", n, 8)
-    ctx.ob("F-OVERFLOW", "no-lossy-mode", not any(o[0] == "F-OVERFLOW" and not o[2] for o in ctx.obligations),
-           "no set_overflow / try_broadcast call in zbus (%d async_broadcast calls inspected)" % n, "-")
+    lossy = [o[1] for o in ctx.obligations if o[0] == "F-OVERFLOW" and not o[2]]
+    ctx.ob("F-OVERFLOW", "no-lossy-mode", not lossy,
+           "no set_overflow / try_broadcast call in zbus (%d async_broadcast calls inspected)" % n if not lossy else
+           "lossy channel operations present: %s" % lossy, "-")
 
 
 # ------------------------------------------------------------------------------------------ stream poll
